@@ -140,14 +140,20 @@ CHECKS["C01"] = dict(
 CHECKS["C18"] = dict(
    text="Partial by design: proved for a handful of constructors/unwinders, enumerated for the rest. Lean: a ledger model of alloc_ctx, kdump_new, "
         "attr_dict_new, xlat_new, xlat_clone, kdump_clone and add_pfn_region with f_oom_safe-style theorems over ALL fault points and sizes (failing the n-th "
-        "allocation => failure returned, nothing leaked, no lock held, pre-existing objects unchanged); the translation-map atomicity and the error-string "
+        "allocation => failure returned, nothing leaked, no lock held, pre-existing objects unchanged); per_ctx_alloc/per_ctx_free over any number of "
+        "contexts, the arch.page_size hook chain of an open LKCD dump (lkcd_realloc_compressed + def_realloc_caches, run twice: a failed slot allocation "
+        "leaves the object exactly as it was, after any failure the object names only live, distinct buffers and nothing else was freed or leaked) and "
+        "mem_pagemap_revalidate (no lock held at return on any exit, failure iff an allocation failed); the translation-map atomicity and the error-string "
         "degradation are the proved C10 (set_nomem, history) and C16 (vadd_trunc, vadd_inbounds) theorems. Tie and property evaluation: systematic fault "
-        "enumeration on the real code — 33 scenarios (create, clone x flags, open ELF/diskdump/flattened, reads in three address spaces, translation set-up, "
+        "enumeration on the real code — about 60 scenarios (create, clone x flags, open ELF/diskdump/flattened/generated LKCD, SADUMP and s390 dumps, also on "
+        "objects with clones, after a failed open and over an open dump of another format, reads in three address spaces and through clones, arch.page_size "
+        "and cache.size changes on open dumps, first queries of memory.pagemap/file.pagemap/max_pfn, per_ctx_alloc, translation set-up, "
         "attributes, addrxlat_sys_os_init, free), every allocation index 1..N+1 failed in a forked child, judged on status, crash/sanitizer report, locks "
         "held at return (pthread interposition ledger), leaks after freeing survivors, follow-up calls on survivors; the model's alloc/free/lock trace is "
         "compared with the intercepted real trace for every n.",
-   note=TB + "Allocations inside zlib/zstd/snappy and mmap are not failed; single-threaded; LKCD/SADUMP open findings are recorded in KNOWN_FINDINGS "
-        "(they need the repository's own tests/out dumps to show up).",
+   note=TB + "Allocations inside zlib/zstd/snappy and mmap are not failed; single-threaded; a refused request to SHRINK a block may be ignored by the "
+        "caller (counted, all other rules apply); open/read of LKCD, SADUMP and s390, re-open, cache.size, file.pagemap and max_pfn are enumerated and "
+        "observed, not modelled.",
    technique="Lean 4 proof (ledger model, all fault points) + systematic n-th-allocation fault enumeration", design="§6 C18")
 CHECKS["C03"] = dict(
    text="PARTIAL by nature: a Lean theorem cannot establish memory safety of 12 000 lines of C. Proved (16 theorems, all inputs, no size bound): bounds, "
